@@ -3,16 +3,249 @@
 //! function on the given arguments and prints its result. No behaviour change
 //! when the feature is off, and none when it is on unless `--verif-hook` is the
 //! first argument.
+//!
+//! Text that may contain arbitrary characters travels hex-encoded (UTF-8
+//! bytes, two lower-case hex digits each) so that one request / one answer
+//! per line is unambiguous.
 #![allow(clippy::all, clippy::pedantic)]
+
+use std::io::{BufRead, Write};
+
+/// A second compilation of the very same source text as `crate::exchange_rates`
+/// (no copy: `include!`), so that its private functions can be called from
+/// here without touching that file.
+#[allow(dead_code, unused_imports)]
+mod er {
+	include!("exchange_rates.rs");
+
+	pub(super) fn hook_parse(eu: bool, xml: &str) -> Result<Vec<(String, f64)>, String> {
+		let r = if eu {
+			parse_exchange_rates_eu(xml)
+		} else {
+			parse_exchange_rates_un(xml)
+		};
+		r.map_err(|e| e.to_string())
+	}
+
+	pub(super) fn hook_load_cached(eu: bool, max_age: u64) -> Result<String, String> {
+		let source = if eu {
+			ExchangeRateSource::EuropeanUnion
+		} else {
+			ExchangeRateSource::UnitedNations
+		};
+		load_cached_data(source, max_age).map_err(|e| e.to_string())
+	}
+
+	pub(super) fn hook_now() -> u64 {
+		get_current_timestamp().unwrap_or(0)
+	}
+}
+
+fn hex(bytes: &[u8]) -> String {
+	let mut s = String::with_capacity(bytes.len() * 2);
+	for b in bytes {
+		s.push_str(&format!("{b:02x}"));
+	}
+	s
+}
+
+fn unhex(s: &str) -> Option<Vec<u8>> {
+	let s = s.trim();
+	if s.len() % 2 != 0 || !s.is_ascii() {
+		return None;
+	}
+	(0..s.len() / 2)
+		.map(|i| u8::from_str_radix(&s[2 * i..2 * i + 2], 16).ok())
+		.collect()
+}
+
+fn panic_text(p: Box<dyn std::any::Any + Send>) -> String {
+	if let Some(m) = p.downcast_ref::<&str>() {
+		(*m).to_string()
+	} else if let Some(m) = p.downcast_ref::<String>() {
+		m.clone()
+	} else {
+		"?".to_string()
+	}
+}
+
+/// one answer line for one exchange-rate document
+fn rates_line(eu: bool, xml: &str) -> String {
+	let xml = xml.to_string();
+	match std::panic::catch_unwind(move || er::hook_parse(eu, &xml)) {
+		Ok(Ok(list)) => {
+			let mut out = String::from("ok");
+			for (c, r) in list {
+				out.push_str(&format!(" {}:{:016x}", hex(c.as_bytes()), r.to_bits()));
+			}
+			out
+		}
+		Ok(Err(msg)) => format!("err {}", hex(msg.as_bytes())),
+		Err(p) => format!("panic {}", hex(panic_text(p).as_bytes())),
+	}
+}
+
+fn for_each_stdin_line(mut f: impl FnMut(&str) -> String) {
+	let stdin = std::io::stdin();
+	let stdout = std::io::stdout();
+	for line in stdin.lock().lines() {
+		let Ok(line) = line else { break };
+		let ans = f(&line);
+		let mut o = stdout.lock();
+		let _ = writeln!(o, "{ans}");
+		let _ = o.flush();
+	}
+}
+
+fn toml_dump(v: &toml::Value, out: &mut String) {
+	match v {
+		toml::Value::String(s) => out.push_str(&format!("(s {})", hex(s.as_bytes()))),
+		toml::Value::Integer(i) => out.push_str(&format!("(i {i})")),
+		toml::Value::Float(f) => out.push_str(&format!("(f {:016x})", f.to_bits())),
+		toml::Value::Boolean(b) => out.push_str(if *b { "(b 1)" } else { "(b 0)" }),
+		toml::Value::Datetime(d) => out.push_str(&format!("(d {})", hex(d.to_string().as_bytes()))),
+		toml::Value::Array(a) => {
+			out.push_str("(a");
+			for x in a {
+				out.push(' ');
+				toml_dump(x, out);
+			}
+			out.push(')');
+		}
+		toml::Value::Table(t) => {
+			out.push_str("(t");
+			for (k, x) in t {
+				out.push_str(&format!(" (k{} ", hex(k.as_bytes())));
+				toml_dump(x, out);
+				out.push(')');
+			}
+			out.push(')');
+		}
+	}
+}
 
 /// Returns Some(exit code) if the arguments were a hook request.
 pub(crate) fn maybe_run(args: &[String]) -> Option<i32> {
 	if args.first().map(String::as_str) != Some("--verif-hook") {
 		return None;
 	}
+	let is_eu = |s: Option<&String>| match s.map(String::as_str) {
+		Some("eu") => Some(true),
+		Some("un") => Some(false),
+		_ => None,
+	};
 	match args.get(1).map(String::as_str) {
 		Some("version") => {
-			println!("1");
+			println!("2");
+			Some(0)
+		}
+		// rates <eu|un> <file>... : one answer line per file
+		//   ok <hex currency>:<f64 bits> ... | err <hex message> | panic <hex message>
+		Some("rates") => {
+			let Some(eu) = is_eu(args.get(2)) else {
+				return Some(2);
+			};
+			std::panic::set_hook(Box::new(|_| {}));
+			for f in &args[3..] {
+				match std::fs::read_to_string(f) {
+					Ok(xml) => println!("{}", rates_line(eu, &xml)),
+					Err(e) => println!("unreadable {}", hex(e.to_string().as_bytes())),
+				}
+			}
+			Some(0)
+		}
+		// rates-stdin <eu|un> : each stdin line is a hex-encoded document
+		Some("rates-stdin") => {
+			let Some(eu) = is_eu(args.get(2)) else {
+				return Some(2);
+			};
+			std::panic::set_hook(Box::new(|_| {}));
+			for_each_stdin_line(|line| match unhex(line).map(String::from_utf8) {
+				Some(Ok(xml)) => rates_line(eu, &xml),
+				Some(Err(_)) => "not-utf8".to_string(),
+				None => "bad-request".to_string(),
+			});
+			Some(0)
+		}
+		// f64-stdin : each stdin line is a hex-encoded token; answers
+		//   ok <f64 bits> <n|a>   (n = is_normal)  |  err <hex message>
+		Some("f64-stdin") => {
+			for_each_stdin_line(|line| match unhex(line).map(String::from_utf8) {
+				Some(Ok(tok)) => match tok.parse::<f64>() {
+					Ok(v) => format!(
+						"ok {:016x} {}",
+						v.to_bits(),
+						if v.is_normal() { "n" } else { "a" }
+					),
+					Err(e) => format!("err {}", hex(e.to_string().as_bytes())),
+				},
+				Some(Err(_)) => "not-utf8".to_string(),
+				None => "bad-request".to_string(),
+			});
+			Some(0)
+		}
+		// load-cached <eu|un> <max_age> : the cache framing on $FEND_CACHE_DIR
+		//   now <unix time>  then  ok <hex payload> | err <hex message> | panic <hex>
+		Some("load-cached") => {
+			let Some(eu) = is_eu(args.get(2)) else {
+				return Some(2);
+			};
+			let Some(max_age) = args.get(3).and_then(|s| s.parse::<u64>().ok()) else {
+				return Some(2);
+			};
+			std::panic::set_hook(Box::new(|_| {}));
+			println!("now {}", er::hook_now());
+			match std::panic::catch_unwind(move || er::hook_load_cached(eu, max_age)) {
+				Ok(Ok(xml)) => println!("ok {}", hex(xml.as_bytes())),
+				Ok(Err(msg)) => println!("err {}", hex(msg.as_bytes())),
+				Err(p) => println!("panic {}", hex(panic_text(p).as_bytes())),
+			}
+			println!("now {}", er::hook_now());
+			Some(0)
+		}
+		// args <args…> : the Action the argument list folds to
+		Some("args") => {
+			use crate::args::Action;
+			match Action::from_args(&args[2..]) {
+				Ok(Action::Help) => println!("help"),
+				Ok(Action::Version) => println!("version"),
+				Ok(Action::Repl) => println!("repl"),
+				Ok(Action::DefaultConfig) => println!("default-config"),
+				Ok(Action::Eval { exprs }) => {
+					let mut out = String::from("eval");
+					for e in exprs {
+						out.push_str(&format!(" x{}", hex(e.as_bytes())));
+					}
+					println!("{out}");
+				}
+				Err(e) => println!("err {}", hex(e.to_string().as_bytes())),
+			}
+			Some(0)
+		}
+		// config : the Config that `config::read()` yields (Debug form);
+		// diagnostics go to stderr as in a normal run
+		Some("config") => {
+			let c = crate::config::read();
+			println!("{c:?}");
+			Some(0)
+		}
+		// toml <file> : the value tree the `toml` crate parses the file to
+		Some("toml") => {
+			let Some(f) = args.get(2) else {
+				return Some(2);
+			};
+			match std::fs::read(f).map(String::from_utf8) {
+				Ok(Ok(text)) => match toml::from_str::<toml::Value>(&text) {
+					Ok(v) => {
+						let mut out = String::new();
+						toml_dump(&v, &mut out);
+						println!("ok {out}");
+					}
+					Err(e) => println!("err {}", hex(e.to_string().as_bytes())),
+				},
+				Ok(Err(_)) => println!("not-utf8"),
+				Err(_) => println!("absent"),
+			}
 			Some(0)
 		}
 		_ => {
